@@ -182,8 +182,18 @@ def check_config(cfg, seed, part):
             out["__derived"] = np.atleast_1d(chosen["M0"].to_value(u.rad)) - np.atleast_1d(chosen["omega"].to_value(u.rad))
             return out
 
+        import random as _random
+
+        np.random.seed(1234)
+        np.random.normal()
+        _random.seed(99)
+        g0 = (np.random.get_state()[1].tobytes(), np.random.get_state()[2:], _random.getstate())
         with model:
             init = joker.setup_mcmc(data, rows, **({"custom_func": hook} if cfg.get("hook") else {}))
+        g1 = (np.random.get_state()[1].tobytes(), np.random.get_state()[2:], _random.getstate())
+        if g0 != g1:
+            part.violation(dict(case0, part="global_random_state"), "setup_mcmc read or changed numpy's / Python's global random state")
+            return
     except Exception as e:
         part.violation(case0, f"setup_mcmc raised {type(e).__name__}: {str(e)[:300]}")
         return
